@@ -1,6 +1,7 @@
 package props
 
 import (
+	"bytes"
 	"context"
 	"fmt"
 	"strings"
@@ -120,8 +121,9 @@ func e2eFields(node *simnode.Node, chain *simnode.Chain, mode string, fields []s
 				want[key{b.Num, t.Idx, 0}] = item{b: b, t: t}
 			case "log":
 				for li := range t.Logs {
-					if li == 0 { // the Transfer log
-						want[key{b.Num, t.Idx, t.Logs[li].Idx}] = item{b: b, t: t, l: &t.Logs[li]}
+					// the Transfer logs: signature hash and exactly three topics (a decoy with four is not one)
+					if l := &t.Logs[li]; len(l.Topics) == 3 && bytes.Equal(l.Topics[0], transferEvent.SignatureHash()) {
+						want[key{b.Num, t.Idx, l.Idx}] = item{b: b, t: t, l: l}
 					}
 				}
 			case "trace":
